@@ -657,6 +657,26 @@ pub fn judge(scn: &Scn, out: &Outcome) -> Vec<Finding> {
                 }
             }
         }
+        // every receiver handle left before the join: the model says Disconnected
+        let all_gone = v.recv_slots.iter().all(|&sl| {
+            hist.iter().any(|e| {
+                e.h == sl && matches!(e.k, OpK::DropH | OpK::Unsub) && e.end <= out.t_join
+            })
+        });
+        if probe_ran && all_gone {
+            if let Some(e) = hist
+                .iter()
+                .find(|e| e.start > out.t_join && e.k == OpK::TrySend)
+            {
+                if !matches!(e.res, Res::Disc(_)) {
+                    fs.push(f(
+                        "C06",
+                        format!("C06|quiescent-send-without-receivers-not-disconnected|{}", fl),
+                        fmt_ev(e),
+                    ));
+                }
+            }
+        }
         if probe_ran && !outstanding.is_empty() {
             let maxo = outstanding.values().copied().max().unwrap_or(0).max(0);
             let expect = n as i64 - maxo;
